@@ -46,7 +46,10 @@ def _init_wrapper(
     @functools.wraps(original_init)
     def wrapper(self: _SelfT, *args: _P.args, **kwargs: _P.kwargs) -> None:
         original_init(self, *args, **kwargs)
-        journal.record(self, "init", details=details_func(self))
+        # A wrapper can outlive its journal (a callable taken from the class or an instance
+        # inside the block and kept by the caller): an exited journal records nothing
+        if journal._active:  # pylint: disable=protected-access
+            journal.record(self, "init", details=details_func(self))
 
     return wrapper
 
@@ -68,6 +71,10 @@ def _setter_wrapper(
 
     @functools.wraps(original_setter)
     def wrapper(self: _SelfT, value: _ValueT) -> None:
+        if not journal._active:  # pylint: disable=protected-access
+            # A wrapper kept by the caller after the journal was exited only forwards
+            original_setter(self, value)
+            return
         old_value = getattr(self, property_name)
         details = f"{old_value!r} -> {value!r}"
         original_setter(self, value)
@@ -95,6 +102,9 @@ def _method_wrapper(
 
     @functools.wraps(original_method)
     def wrapper(self: _SelfT, *args: _P.args, **kwargs: _P.kwargs) -> _T:
+        if not journal._active:  # pylint: disable=protected-access
+            # A wrapper kept by the caller after the journal was exited only forwards
+            return original_method(self, *args, **kwargs)
         # The details describe the state before the call; the entry is recorded only when the
         # operation completed (a call that raises leaves no entry)
         details = details_func(self, *args, **kwargs)
@@ -125,6 +135,9 @@ def _container_method_wrapper(
 
     @functools.wraps(original_method)
     def wrapper(self: _SelfT, *args: _P.args, **kwargs: _P.kwargs) -> _T:
+        if not journal._active:  # pylint: disable=protected-access
+            # A wrapper kept by the caller after the journal was exited only forwards
+            return original_method(self, *args, **kwargs)
         target = getattr(self, target_attr)
         details = details_func(self, *args, **kwargs)
         result = original_method(self, *args, **kwargs)
